@@ -20,7 +20,7 @@ ACT_K = ["Launch", "Accept", "Handshake", "Tick", "Answer", "Chatter", "SockBrea
 PROPS_T = ["TypeOK", "OneShotOnce", "NothingLost", "NewIsSilent", "FireOnlyWhenDue", "NeverAfterCancel",
            "OncePerExpiry", "Spaced", "RunServesDue", "DoneIsFinal"]
 PROPS_K = ["TypeOK", "RegistryOK", "DetectionBound", "DownOnce", "OnlySilentDisconnected", "SilentDisconnected",
-           "ResponsiveNeverDisconnected", "EchoOnlyIfUp", "TicksSpaced"]
+           "ResponsiveNeverDisconnected", "EchoOnlyIfUp", "TicksSpaced", "OrphanNeverProbed"]
 SETS = ("echo", "down", "shut", "reg")
 
 
@@ -111,33 +111,36 @@ def run(ctx):
 
   # ---- 1. TLC: model runs, exports, simulations - all independent, run concurrently
   mcs = [("MC_T1.cfg", "MCTimers", ACT_T), ("MC_T2.cfg", "MCTimers", ACT_T),
-         ("MC_K2.cfg", "MCKeepalive", ACT_K), ("MC_K2L.cfg", "MCKeepalive", ACT_K), ("MC_K2b.cfg", "MCKeepalive", ACT_K)]
+         ("MC_K2.cfg", "MCKeepalive", ACT_K), ("MC_K2d.cfg", "MCKeepalive", ACT_K), ("MC_K2b.cfg", "MCKeepalive", ACT_K)]
   if not quick:
-    mcs += [("MC_T2x.cfg", "MCTimers", ACT_T), ("MC_T2w.cfg", "MCTimers", ACT_T),
-            ("MC_K2x.cfg", "MCKeepalive", ACT_K), ("MC_K2Lx.cfg", "MCKeepalive", ACT_K),
-            ("MC_K2bx.cfg", "MCKeepalive", ACT_K), ("MC_K3.cfg", "MCKeepalive", ACT_K)]
+    mcs += [("MC_T2x.cfg", "MCTimers", ACT_T), ("MC_K2L.cfg", "MCKeepalive", ACT_K), ("MC_K2x.cfg", "MCKeepalive", ACT_K),
+            ("MC_K2Lx.cfg", "MCKeepalive", ACT_K), ("MC_K2bx.cfg", "MCKeepalive", ACT_K),
+            ("MC_K3.cfg", "MCKeepalive", ACT_K)]
   p21, p11, p12 = dict(I=2, TO=1), dict(I=1, TO=1), dict(I=1, TO=2)
+  DUP = {"3": 1}          # MCKeepalive!DpidDup: connection 3 is a reconnect of the switch behind connection 1
   # (cfg, module, adapter, params, cap in quick, cap in thorough)
   exs = [("EX_T1.cfg", "MCTimers", AD_T, dict(direct="mix"), 6000, None),
          ("EX_T2e.cfg", "MCTimers", AD_T, dict(direct="mix"), 6000, None),
          ("EX_K1.cfg", "MCKeepalive", AD_K, p21, None, None),
-         ("EX_K2c.cfg", "MCKeepalive", AD_K, p11, 6000, None)]
+         ("EX_K2c.cfg", "MCKeepalive", AD_K, p11, 5000, None),
+         ("EX_K2d.cfg", "MCKeepalive", AD_K, dict(p11, dup=DUP), 3000, None)]
   if not quick:
-    exs += [("EX_T2q.cfg", "MCTimers", AD_T, dict(direct="st"), None, 50000),
-            ("EX_T2.cfg", "MCTimers", AD_T, dict(direct="direct"), None, 50000),
-            ("EX_K2q.cfg", "MCKeepalive", AD_K, p21, None, 40000),
-            ("EX_K2.cfg", "MCKeepalive", AD_K, p21, None, 40000),
-            ("EX_K3.cfg", "MCKeepalive", AD_K, p11, None, 40000)]
-  n = 60 if quick else 1500
+    exs = [(c, m, ad, prm, cq, 20000 if c in ("EX_K2c.cfg", "EX_K2d.cfg") else None) for c, m, ad, prm, cq, _ in exs]
+    exs += [("EX_T2q.cfg", "MCTimers", AD_T, dict(direct="st"), None, 20000),
+            ("EX_T2.cfg", "MCTimers", AD_T, dict(direct="direct"), None, 20000),
+            ("EX_K2q.cfg", "MCKeepalive", AD_K, p21, None, 20000),
+            ("EX_K2.cfg", "MCKeepalive", AD_K, p21, None, 20000),
+            ("EX_K3u.cfg", "MCKeepalive", AD_K, p11, None, 25000)]
+  n = 300 if quick else 1500
   sims = [("SIM_T.cfg", "MCTimers", AD_T, dict(direct="mix"), n, 40, 0),
-          ("SIM_K.cfg", "MCKeepalive", AD_K, p21, n, 45, 1),
-          ("SIM_Kb.cfg", "MCKeepalive", AD_K, p12, n, 45, 2)]
+          ("SIM_K.cfg", "MCKeepalive", AD_K, dict(p21, dup=DUP), n, 45, 1),
+          ("SIM_Kb.cfg", "MCKeepalive", AD_K, dict(p12, dup=DUP), n, 45, 2)]
   if not quick:
     sims += [("SIM_T.cfg", "MCTimers", AD_T, dict(direct="direct"), n, 40, 3)]
   jobs = [mc_job(c, m, workers=4 if quick else 6) for c, m, _ in mcs] + [ex_job(c, m) for c, m, _, _, _, _ in exs] + \
          [sim_job(ctx, c, m, num, d, off) for c, m, _, _, num, d, off in sims]
   t0 = _time.time()
-  res = tlc.run_many(jobs, parallel=8)
+  res = tlc.run_many(jobs, parallel=8 if quick else 6)
   ctx.notes["tlc_stage_s"] = round(_time.time() - t0, 1)
   k = 0
   for c, m, acts in mcs:
@@ -175,7 +178,7 @@ def run(ctx):
     replay_set(ctx, "%s seed+%d" % (c, off), ad, behs, prm, None, chunk=20)
 
   # ---- 4. code -> spec: random drivers on the real code, traces validated by TLC
-  ntr = 150 if quick else 2500
+  ntr = 150 if quick else 1500
   sets = [("timers", "props.X04:drive_t", "TraceTimers", "TraceT.cfg", None),
           ("keepalive", "props.X04:drive_k", "TraceKeepalive", "TraceK.cfg", (2, 1)),
           ("keepalive", "props.X04:drive_k", "TraceKeepalive", "TraceKb.cfg", (1, 2))]
@@ -284,7 +287,7 @@ def drive_k(arg):
   seed, n, ito = arg
   from harness.adapters_x04 import KeepaliveAdapter
   rnd = random.Random(seed)
-  ad = KeepaliveAdapter(I=ito[0], TO=ito[1], direct="mix", seed=seed % 97)
+  ad = KeepaliveAdapter(I=ito[0], TO=ito[1], direct="mix", seed=seed % 97, dup={3: 1})      # as MCKeepalive!DpidDup
   tr = []
   acc, hs, broken = set(), set(), set()
   ticks_since_run = 0
@@ -292,7 +295,7 @@ def drive_k(arg):
   try:
     for step in range(n):
       env = ad.env
-      reg = set(env.nexus.connections.keys())
+      reg = set(ad._reg())
       inloop = {c for c in acc if env.con_of(c) is not None}
       shut = {c for c in inloop if env.socks[c].shut}
       cand = []
@@ -309,7 +312,7 @@ def drive_k(arg):
           cand.append(("Chatter", dict(c=c)))
         if c in reg and c not in broken and rnd.random() < 0.08:
           cand.append(("SockBreak", dict(c=c)))
-        if c in inloop and c not in shut and rnd.random() < 0.04:
+        if c in inloop and c not in shut and rnd.random() < (0.04 if c in reg or c not in hs else 0.15):
           cand.append(("PeerClose", dict(c=c)))
         if c in shut and rnd.random() < 0.5:
           cand.append(("Reap", dict(c=c)))
